@@ -13,9 +13,12 @@
 //! and per attribute / event report its kind, id, encoded size, value length(s) and whether the
 //! value bytes are the configured ones.
 //!
-//! op:   `rd|sp [b<cap>] <item>… [f<1|2><m|x>]… [q<W|1>] [z<n>] [e<c|i|d><1|2>:<len>]… [m<min>]…`
+//! op:   `rd|sp [b<cap>] <item>… [f<1|2><m|x>]… [q<W|1>] [z<n>] [e<c|i|d><1|2>:<len>]… [m<min>]… [p<k>:<c|i|d><1|2>:<len>]…`
+//!       `p<k>:…` = LIVE QUEUE: after message `k` of the answer (MoreChunks set) was received and before it is
+//!       acknowledged with the `StatusResponse` the device waits for, push that event (tokens in ascending `k`)
 //!       item = `s<attr>:<len>` | `l<k>:<len>,<len>…` | `l<k>:-` (endpoint 1; `S` / `L`: endpoint 2) | `u`
-//! out:  `<status> | <event queue: n,n,…@<ms>@<debug>,<info>,<critical>,<N> |-> | <chunk>;<chunk>…`
+//! out:  `<status> | <event queue: n,n,…@<ms>@<debug>,<info>,<critical>,<N>[@L<k>=n,n,…+L<k>=…] |-> | <chunk>;<chunk>…`
+//!       (`L<k>=` the queue after the pushes that followed message `k`)
 //!       chunk = `<size>/<more><suppress><wf>/<subscription id|->/<piece>,…|-/<event>,…|-`
 //!       piece = `S<id>:<enc>:<len>:<ok>` | `W<id>:<enc>:<lens|->:<ok>` | `E<id>:<enc>` |
 //!               `I<id>:<enc>:<len>:<ok>` | `X<id>:<enc>:<code>` | `?`
@@ -94,6 +97,8 @@ struct Op {
     /// events pushed before the request: priority, event id, payload length
     events: Vec<(u8, u32, usize)>,
     mins: Vec<u64>,
+    /// live pushes: after message `k` (1-based) of the answer: priority, event id, payload length
+    live: Vec<(usize, u8, u32, usize)>,
 }
 
 fn parse_op(op: &str) -> Op {
@@ -133,6 +138,18 @@ fn parse_op(op: &str) -> Op {
                 let evid = if head.ends_with('2') { 2 } else { 1 };
                 o.events.push((prio, evid, len));
             }
+            "p" => {
+                let f: Vec<&str> = rest.split(':').collect();
+                if f.len() == 3 {
+                    let prio = match f[1].chars().next() {
+                        Some('d') => 0,
+                        Some('i') => 1,
+                        _ => 2,
+                    };
+                    let evid = if f[1].ends_with('2') { 2 } else { 1 };
+                    o.live.push((f[0].parse().unwrap_or(0), prio, evid, f[2].parse().unwrap_or(0)));
+                }
+            }
             "u" => {
                 o.items.push(Item::Unknown);
                 o.changed.push(changed);
@@ -153,6 +170,8 @@ fn parse_op(op: &str) -> Op {
             _ => {}
         }
     }
+    // the pushes happen in the order of the messages they follow
+    o.live.sort_by_key(|l| l.0);
     o
 }
 
@@ -373,6 +392,11 @@ const MAX_CHUNKS: usize = 1500;
 struct Seen {
     queue: String,
     chunks: Vec<String>,
+    /// live pushes: `L<k>=<queue after them>`
+    live: Vec<String>,
+    /// live pushes done / events they evicted
+    live_pushed: usize,
+    live_evicted: usize,
 }
 
 /// value sizes of the op (or empty values), transmit buffer length, an empty event queue
@@ -395,23 +419,51 @@ fn prepare<C: Crypto>(runner: &Runner<C>, op: &Op, empty_values: bool) {
     runner.state.events().verif_reset();
 }
 
-/// push the events of the op; returns the event numbers in the queue in iteration order
-fn push_events<C: Crypto>(runner: &Runner<C>, op: &Op) -> String {
+/// push one event: the n-th pushed event (0-based) gets number n + 1 whether or not it fits the queue
+fn push_one<C: Crypto>(runner: &Runner<C>, n: usize, prio: u8, evid: u32, len: usize) {
     let events = runner.state.events();
     let kv_buf = Mutex::new(RefCell::new([0u8; 0]));
     let kv = SharedKvBlobStore::new(DummyKvBlobStore, &kv_buf);
+    let prio = match prio {
+        0 => EventPriority::Debug,
+        1 => EventPriority::Info,
+        _ => EventPriority::Critical,
+    };
+    let _ = events.push(ENDPOINT, CLUSTER_ID, evid, prio, &kv, |mut tw| tw.str(&TLVTag::Context(7), &ev_pattern(n + 1, len)));
+}
+
+/// LIVE QUEUE: message `k` of the answer has just been received and is not yet acknowledged (the
+/// device waits in `recv_status_success`, its next `events.fetch` comes after the acknowledgement):
+/// push the events the op schedules for this moment
+fn push_live<C: Crypto>(runner: &Runner<C>, op: &Op, k: usize, seen: &core::cell::RefCell<Seen>) {
+    let mut pushed = 0usize;
+    let mut before = 0usize;
+    runner.state.events().verif_visit(|_, _| before += 1);
+    for (idx, (at, prio, evid, len)) in op.live.iter().enumerate() {
+        if *at == k {
+            push_one(runner, op.events.len() + idx, *prio, *evid, *len);
+            pushed += 1;
+        }
+    }
+    if pushed > 0 {
+        let mut q: Vec<String> = Vec::new();
+        runner.state.events().verif_visit(|n, _| q.push(n.to_string()));
+        let mut s = seen.borrow_mut();
+        s.live_pushed += pushed;
+        s.live_evicted += (before + pushed).saturating_sub(q.len());
+        s.live.push(format!("L{}={}", k, q.join(",")));
+    }
+}
+
+/// push the events of the op; returns the event numbers in the queue in iteration order
+fn push_events<C: Crypto>(runner: &Runner<C>, op: &Op) -> String {
+    let events = runner.state.events();
     for (n, (prio, evid, len)) in op.events.iter().enumerate() {
-        let prio = match prio {
-            0 => EventPriority::Debug,
-            1 => EventPriority::Info,
-            _ => EventPriority::Critical,
-        };
-        // the n-th pushed event gets number n + 1 whether or not it fits the queue
-        let _ = events.push(ENDPOINT, CLUSTER_ID, *evid, prio, &kv, |mut tw| tw.str(&TLVTag::Context(7), &ev_pattern(n + 1, *len)));
+        push_one(runner, n, *prio, *evid, *len);
     }
     let mut q: Vec<String> = Vec::new();
     events.verif_visit(|n, _| q.push(n.to_string()));
-    if q.is_empty() && op.events.is_empty() {
+    if q.is_empty() && op.events.is_empty() && op.live.is_empty() {
         "-".into()
     } else {
         // the events carry the time of the push (a varying-width field of their reports);
@@ -529,6 +581,9 @@ async fn interact<C: Crypto>(runner: &Runner<C>, op: &Op, seen: &core::cell::Ref
             if n > MAX_CHUNKS {
                 return Ok("toomany".into());
             }
+            if more && !op.report {
+                push_live(runner, op, n, seen);
+            }
             if more || op.subscribe {
                 ex.send_with(|_, wb| {
                     StatusResp::write(wb, IMStatusCode::Success)?;
@@ -600,6 +655,9 @@ async fn interact<C: Crypto>(runner: &Runner<C>, op: &Op, seen: &core::cell::Ref
             n += 1;
             if n > MAX_CHUNKS {
                 return Ok("toomany".into());
+            }
+            if more {
+                push_live(runner, op, n, seen);
             }
             rep.send_with(|_, wb| {
                 StatusResp::write(wb, IMStatusCode::Success)?;
@@ -696,7 +754,16 @@ fn drive(cases: &[Case], out: &mut Out) {
                             out.stat(&format!("polls_below_2^{}", 64 - used.leading_zeros()), 1);
                         }
                         let got = seen.borrow();
-                        let queue = if got.queue.is_empty() { "-".to_string() } else { got.queue.clone() };
+                        let mut queue = if got.queue.is_empty() { "-".to_string() } else { got.queue.clone() };
+                        if !got.live.is_empty() && queue != "-" {
+                            queue.push_str(&format!("@{}", got.live.join("+")));
+                        }
+                        if !op.live.is_empty() {
+                            out.stat("live_requests", 1);
+                            out.stat("live_pushes_done", got.live_pushed as u64);
+                            out.stat("live_pushes_evicting", (got.live_evicted > 0) as u64);
+                            out.stat("live_events_evicted", got.live_evicted as u64);
+                        }
                         let ch = if got.chunks.is_empty() { "-".to_string() } else { got.chunks.join(";") };
                         match o {
                             Some(st) => {
@@ -705,6 +772,11 @@ fn drive(cases: &[Case], out: &mut Out) {
                                 if ch.contains(';') && !multi[ci] {
                                     multi[ci] = true;
                                     out.buf.push_str("#nt\n");
+                                }
+                                if op.subscribe && !op.live.is_empty() {
+                                    // the subscription has seen events pushed behind its back and would
+                                    // report them on an exchange nobody accepts: go on with a fresh device
+                                    return;
                                 }
                                 if st.starts_with("none") {
                                     // no report: nothing to report, or the report failed on the device
@@ -1041,10 +1113,72 @@ fn gen_op(r: &mut Rng, k: K, force_multi: bool, thorough: bool, out: &mut Out) -
     toks.join(" ")
 }
 
+/// LIVE QUEUE op: a read (sometimes a subscribe priming / a subscription report) of the events whose
+/// answer takes several messages, with events pushed between the messages: the rings (4096 bytes each) are
+/// nearly full of debug / info events so that the pushes evict events the reader has not reached yet (or
+/// promote them), the new events are in the range of a read and out of the range of a subscription
+fn gen_live_op(r: &mut Rng, k: K, out: &mut Out) -> String {
+    let mut toks: Vec<String> = Vec::new();
+    let kind = match r.below(10) {
+        0 => "sp",
+        1 => "sr",
+        _ => "rd",
+    };
+    toks.push(kind.into());
+    let cap = if r.chance(1, 4) { rg(r, 300, 900) as usize } else { MAX_EXCHANGE_TX_BUF_SIZE };
+    if cap != MAX_EXCHANGE_TX_BUF_SIZE {
+        toks.push(format!("b{}", cap));
+    }
+    let limit = cap - 28;
+    let maxv = limit.saturating_sub(40 + k.kv).max(8);
+    if r.chance(1, 3) {
+        let len = rg(r, 0, (maxv as u64) / 2) as usize;
+        toks.push(format!("s{}:{}", r.below(N_SCALAR as u64), len));
+    }
+    toks.push(if r.chance(4, 5) { "qW".into() } else { "q1".into() });
+    // how full the debug ring gets: 60 % .. 110 % of its 4096 bytes
+    let fill = rg(r, 2400, 4500) as usize;
+    let mut total = 0usize;
+    let mut cnt = 0usize;
+    while total < fill && cnt < 30 {
+        let prio = ['d', 'd', 'd', 'd', 'i', 'c'][r.below(6) as usize];
+        let evid = if r.chance(5, 6) { 1 } else { 2 };
+        let len = match r.below(4) {
+            0 => rg(r, 1, 80.min(maxv as u64)) as usize,
+            1 | 2 => rg(r, (maxv as u64 / 5).max(2), (maxv as u64 / 2).max(3)) as usize,
+            _ => rg(r, (maxv as u64 / 2).max(2), maxv as u64) as usize,
+        };
+        total += len + 40;
+        cnt += 1;
+        toks.push(format!("e{}{}:{}", prio, evid, len));
+    }
+    if r.chance(1, 5) {
+        toks.push(format!("m{}", rg(r, 0, cnt as u64 + 3)));
+    }
+    // the pushes: after message 1..5 (a finite schedule), one to three events each
+    let mut at = 1u64;
+    let batches = rg(r, 1, 4);
+    for _ in 0..batches {
+        for _ in 0..rg(r, 1, 4) {
+            let prio = ['d', 'd', 'd', 'i', 'c'][r.below(5) as usize];
+            let evid = if r.chance(5, 6) { 1 } else { 2 };
+            let len = match r.below(3) {
+                0 => rg(r, 1, 80.min(maxv as u64)) as usize,
+                1 => rg(r, (maxv as u64 / 5).max(2), (maxv as u64 / 2).max(3)) as usize,
+                _ => rg(r, (maxv as u64 / 2).max(2), maxv as u64) as usize,
+            };
+            toks.push(format!("p{}:{}{}:{}", at, prio, evid, len));
+        }
+        at += rg(r, 0, 3);
+    }
+    out.stat("gen_live_ops", 1);
+    toks.join(" ")
+}
+
 pub fn gen(a: &Args) -> String {
     let mut r = Rng::new(a.seed);
     let mut out = Out::default();
-    out.buf.push_str("#rule a case is a sequence of read requests and subscribe requests (priming report) against the real InteractionModel over a harness cluster on two endpoints (16 octet-string attributes, 6 list attributes, 2 events) with generator-chosen value lengths (empty, small, hundreds of bytes, nearly a whole message, computed to end 3..0 bytes before / exactly at / 1..2 bytes past the space left in the current chunk, around the largest value that fits an empty message, values and list elements that fit no message), lists from empty to 60 elements, 0..16 queued events of three priorities and two ids with payloads chosen the same way, wildcard / single-event / invalid event paths, event filters, data-version filters that match or do not match, and a transmit buffer cut to 48..1178 bytes in a third of the requests; non-trivial = at least one request of the case was answered in more than one chunk (the first request of every generated case is built that way); distinct = by operation list\n");
+    out.buf.push_str("#rule a case is a sequence of read requests and subscribe requests (priming report) against the real InteractionModel over a harness cluster on two endpoints (16 octet-string attributes, 6 list attributes, 2 events) with generator-chosen value lengths (empty, small, hundreds of bytes, nearly a whole message, computed to end 3..0 bytes before / exactly at / 1..2 bytes past the space left in the current chunk, around the largest value that fits an empty message, values and list elements that fit no message), lists from empty to 60 elements, 0..16 queued events of three priorities and two ids with payloads chosen the same way, wildcard / single-event / invalid event paths, event filters, data-version filters that match or do not match, a transmit buffer cut to 48..1178 bytes in a third of the requests, and (1 of 7 ops after the first) live-queue requests during whose answer further events are pushed into the real queue between two messages (evicting / promoting events the reader has not reached, new events in range of a read); non-trivial = at least one request of the case was answered in more than one chunk (the first request of every generated case is built that way); distinct = by operation list\n");
     // constants first (one throw-away device), so that the generator can aim at the boundaries
     let k = {
         let runner = e2e::new_runner();
@@ -1067,7 +1201,9 @@ pub fn gen(a: &Args) -> String {
     for id in 0..n_cases {
         let mut cr = r.fork();
         let n_ops = cr.range(3, 10);
-        let ops = (0..n_ops).map(|i| gen_op(&mut cr, kt, i == 0, a.thorough, &mut out)).collect();
+        let ops = (0..n_ops)
+            .map(|i| if i > 0 && cr.chance(1, 7) { gen_live_op(&mut cr, kt, &mut out) } else { gen_op(&mut cr, kt, i == 0, a.thorough, &mut out) })
+            .collect();
         cases.push(Case { id, kind: "rd".into(), ops });
     }
     drive(&cases, &mut out);
